@@ -266,7 +266,10 @@ pub struct FrontendCtx<'a, R: FileManager> {
     module_items_being_located: Vec<ModuleItemAddress>,
     files_being_extracted_as_value: Vec<BffFileName>,
     values_being_extracted: Vec<ModuleItemAddress>,
+    generic_instantiations_in_progress: usize,
 }
+
+const MAX_GENERIC_INSTANTIATION_DEPTH: usize = 25;
 
 #[derive(Debug)]
 enum AddressedType {
@@ -1118,6 +1121,7 @@ impl<'a, R: FileManager> FrontendCtx<'a, R> {
             module_items_being_located: vec![],
             files_being_extracted_as_value: vec![],
             values_being_extracted: vec![],
+            generic_instantiations_in_progress: 0,
         }
     }
 
@@ -2146,7 +2150,19 @@ impl<'a, R: FileManager> FrontendCtx<'a, R> {
         }
         self.partial_validators.insert(rt_uuid.clone(), None);
 
-        let ty = self.extract_addressed_type(&fat, type_args, anchor);
+        // `type Nest<T> = { v: T; n?: Nest<T[]> }` asks for a new instantiation at every level
+        let generic = ts_type_args.is_some();
+        if generic {
+            self.generic_instantiations_in_progress += 1;
+        }
+        let ty = if self.generic_instantiations_in_progress > MAX_GENERIC_INSTANTIATION_DEPTH {
+            self.error(anchor, DiagnosticInfoMessage::TypeInstantiationTooDeep)
+        } else {
+            self.extract_addressed_type(&fat, type_args, anchor)
+        };
+        if generic {
+            self.generic_instantiations_in_progress -= 1;
+        }
         match ty {
             Ok(ty) => self.insert_definition(rt_uuid.clone(), ty),
             Err(e) => {
